@@ -506,6 +506,31 @@ def foreign(kind):
                                                        card("SIMPLE", "F").ljust(BLOCK)])
     return f
 
+STRUCT_PREFIXES = (b"SIMPLE", b"BITPIX", b"NAXIS", b"EXTEND", b"TYPE", b"ORDER", b"PERIOD", b"COMMENT", b"HISTORY", b"PCOUNT", b"GCOUNT")
+BAD_CARDS = [b"NOTE    = (1.0, 2.0", b"NOTE    = 'never closed", b"NOTE    =", b"NOTE    = 1.0 2.0 3.0", b"NOTE      no equals sign here",
+             b"note    = 'lowercase keyword'", b"NOTE    = (1.0, 2.0)", b"NO TE   = 3", b"NOTE    = 'x''", b"NOTE    = 1E", b"=       = 5", b"NOTE    = T F"]
+def m_badcard(legacy, strip_aux):
+    """a malformed card as the LAST card of the primary header (what the keyword scan of the reader sees last), optionally in a
+    legacy-layout file (one common ORDER key) and with every auxiliary card removed: combinations of header conditions that are
+    individually harmless"""
+    def f(rng, hd):
+        p = hd[0]
+        if legacy:
+            nd = len(p.axes())
+            vals = [p.key("ORDER%d" % i) for i in range(nd)]
+            if None in vals or len(set(vals)) != 1:
+                return None
+            for i in range(1, nd):
+                p.drop("ORDER%d" % i)
+            i0 = p.find("ORDER0")
+            p.cards[i0] = b"ORDER   " + p.cards[i0][8:]
+        if strip_aux:
+            p.cards = [c for c in p.cards if c[:8].strip() == b"" or any(c.startswith(s) for s in STRUCT_PREFIXES)]
+            p.cards = [c for c in p.cards if not c.startswith(b"COMMENT   removed card")]
+        p.cards.append(rng.choice(BAD_CARDS).ljust(80))
+        return "badcard-%s%s" % ("legacy" if legacy else "ordern", "-noaux" if strip_aux else ""), serialise(hd)
+    return f
+
 def valid(kind):
     def f(rng, hd):
         if kind == "asis":
@@ -547,6 +572,7 @@ def valid(kind):
 MUTATIONS = [
     (3, valid("asis")), (1, valid("no-extents")), (1, valid("single-order")), (1, valid("reordered")), (1, valid("lowercase-extname")), (1, valid("extra-hdu")),
     (3, m_order("+1")), (3, m_order("-1")), (2, m_order("=huge")), (2, m_order("=negative")), (1, m_order("-missing")), (1, m_order("=float")), (1, m_order("=string")),
+    (2, m_badcard(True, True)), (1, m_badcard(True, False)), (1, m_badcard(False, True)), (1, m_badcard(False, False)),
     (1, m_order_single("negative")), (1, m_order_single("huge")), (1, m_order_single("same")), (1, m_order_single("float")),
     (3, m_naxis("+1", True)), (3, m_naxis("-1", True)), (2, m_naxis("=0", True)), (1, m_naxis("+1", False)), (1, m_naxis("-1", False)), (1, m_naxis("=0", False)), (1, m_naxis("=huge", False)),
     (1, m_naxis_count("-1")), (1, m_naxis_count("=0")), (1, m_naxis_count("+1")),
